@@ -31,6 +31,9 @@ Modelled rather than verified (inputs or assumptions of the model, guarded by th
   by the builder (`edge_builder_consistent`), reachable only through the `pub` fields;
 * `VehicleParameters::from_query(..).ok()`: malformed vehicle parameters count as absent (inside the `vehOk` table).
 -/
+import Compass.Gen.Decisions
+import Compass.Proofs.Num
+import Compass.Model.MapMatch
 import Compass.Proofs.MapMatch
 
 namespace Compass
@@ -1037,6 +1040,36 @@ example : (coordDistanceMeters (180 : ℚ) 0 (-180) 0 0).isSome = true := by
   simp [coordDistanceMeters, coordsInRange, inRange, Lit.lit]
 example : (coordDistanceMeters (180 + 1 / 1000 : ℚ) 0 0 0 0).isSome = false := by
   simp [coordDistanceMeters, coordsInRange, inRange, Lit.lit]
+
+end C16
+end Compass
+
+namespace Compass
+namespace C16
+open Src
+
+/-! ### Source decision ties
+
+The relational operators at the named comparison sites of the Rust source are re-extracted on every run
+by `tools/gen_model.py` into `Compass/Gen/Decisions.lean` (`Src.<site> : Src.Rel`).  Each theorem below
+says that the hand-written model decides at that site by exactly the operator the source has there
+(`Rel.nat` / `Rel.int` / `Rel.num` interpret the extracted operator; an unrecognised line is `none`).  A
+source change that turns `<` into `<=`, `>` into `>=`, … at a site changes the generated constant and this
+proof obligation stops checking, whether or not a generated case lands on the tie. -/
+
+open MapMatch in
+theorem src_vertex_match_tolerance {α : Type} [Field α] [LinearOrder α] [IsStrictOrderedRing α] [Lit α] [LawfulLit α] (t : α) (u : DistanceUnit) (c : VCand α) (g : α) (hg : c.gc = some g) :
+    some (validateTolerance (some (t, u)) c) =
+      (vertex_match_tolerance.num (DistanceUnit.meters.convert u g) t).map
+        fun beyond => if beyond then .error .beyondTolerance else .ok () := by
+  simp [validateTolerance, hg, vertex_match_tolerance, Rel.num]
+  split <;> simp_all
+
+open MapMatch in
+theorem src_edge_match_tolerance {α : Type} [Field α] [LinearOrder α] [IsStrictOrderedRing α] [Lit α] [LawfulLit α] (t : α) (u : DistanceUnit) (c : ECand α) (g : α) (hg : c.gc = some g) :
+    some (withinTolerance (some (t, u)) c) =
+      (edge_match_tolerance.num (DistanceUnit.meters.convert u g) t).map fun ok => .ok ok := by
+  simp [withinTolerance, hg, edge_match_tolerance, Rel.num]
 
 end C16
 end Compass
